@@ -1,9 +1,10 @@
 import LiquidVerif.Lemmas.TaintFilters
+import LiquidVerif.Lemmas.TaintEntMore
 /-! The stronger invariant "a `Markup` holds no raw special **and** each of its `&` begins an entity" (`Good`), for the
 entity-friendly filters (`FName.entFriendly`). Same structure as `Lemmas/Taint*.lean`. -/
 namespace LiquidVerif.Taint
 open LiquidVerif.Escape
-open LiquidVerif.Filters (joinStr truncateChars truncateWords MAX_TRUNC_WORDS)
+open LiquidVerif.Filters (joinStr truncateChars truncateWords MAX_TRUNC_WORDS downcase capitalize lstrip rstrip strip)
 
 def Good (s : Str) : Prop := Clean s ∧ isEnt s = true
 
@@ -124,6 +125,18 @@ theorem mixAdd_invE {a b : TStr} (ha : a.InvE) (hb : b.InvE) : (mixAdd a b).InvE
   · exact invE_safe (good_append_mpr ⟨good_escT ha, good_escT hb⟩)
   · exact invE_unsafe _
 
+theorem keepSafe_invE {f : Str → Str} (hf : ∀ s, Good s → Good (f s)) {s : TStr} (h : s.InvE) : (keepSafe f s).InvE :=
+  fun hs => hf _ (h hs)
+
+theorem plusSpace_invE {s : TStr} (hs : s.InvE) : (replaceT false s ⟨['+'], false⟩ ⟨[' '], false⟩).InvE := by
+  simp only [replaceT, Bool.false_eq_true, if_false]
+  split
+  · rename_i h
+    have he : escT ⟨[' '], false⟩ = [' '] := by decide
+    rw [he]
+    exact invE_safe ⟨clean_replaceAll (by decide) (hs h).1, isEnt_plus_space (hs h).2⟩
+  · exact invE_unsafe _
+
 theorem good_joinStr {sep : Str} {xs : List Str} (hs : Good sep) (hx : ∀ x ∈ xs, Good x) : Good (joinStr sep xs) := by
   induction xs with
   | nil => exact good_nil
@@ -218,6 +231,11 @@ theorem applyFilter_invE (P : Prims) {f : FName} {v : Val} {args : List Val} {r 
     | exact okS_invE h (mixAdd_invE hs (argS_invE P (ha _ (by simp))))
     | exact okS_invE h (mixAdd_invE (argS_invE P (ha _ (by simp))) hs)
     | exact okS_invE h (invE_unsafe _)
+    | exact okS_invE h (keepSafe_invE (fun _ hg => ⟨clean_downcase hg.1, isEnt_downcase hg.2⟩) hs)
+    | exact okS_invE h (keepSafe_invE (fun _ hg => ⟨clean_capitalize hg.1, isEnt_capitalize hg.2⟩) hs)
+    | exact okS_invE h (keepSafe_invE (fun _ hg => ⟨clean_lstrip hg.1, isEnt_lstrip hg.2⟩) hs)
+    | exact okS_invE h (keepSafe_invE (fun _ hg => ⟨clean_rstrip hg.1, isEnt_rstrip hg.2⟩) hs)
+    | exact okS_invE h (keepSafe_invE (fun _ hg => ⟨clean_strip hg.1, isEnt_strip hg.2⟩) hs)
     | exact okS_invE h (invE_safe (good_of_noAmp (clean_quotePlus _) (noAmp_quotePlus _)))
     | exact okS_invE h (invE_safe (good_of_noAmp (clean_jsEscape _) (noAmp_jsEscape _)))
     | skip
@@ -225,6 +243,23 @@ theorem applyFilter_invE (P : Prims) {f : FName} {v : Val} {args : List Val} {r 
   case h_6 =>
     simp only [↓reduceIte] at h
     exact okS_invE h (invE_safe (good_escape _))
+  -- strip_html: the identity on a clean value
+  case h_21 =>
+    refine okS_invE h (fun hsafe => ?_)
+    simp only [Bool.true_and] at hsafe
+    have hc := hs hsafe
+    simp only [not_contains_lt hc.1, Bool.false_and, Bool.false_eq_true, if_false]
+    exact hc
+  -- strip_newlines
+  case h_22 =>
+    simp only [↓reduceIte] at h
+    exact okS_invE h (invE_safe ⟨clean_subNewlines clean_nil (good_escT hs).1, isEnt_subNewlines_nil (good_escT hs).2⟩)
+  -- url_decode
+  case h_27 =>
+    have ht := plusSpace_invE hs
+    split at h
+    · exact okS_invE h (invE_unsafe _)
+    · exact okS_invE h ht
   -- truncate
   case h_24 =>
     repeat' (split at h)
